@@ -333,6 +333,10 @@ CODE_LEVEL = {
             "the C text of Avtp_GetField/SetField on a NULL PDU or an out-of-range identifier: 0 / no effect, no memory access"),
     "C14": (["O1722.Refine.Props"], ["O1722.Refine.C14_code"],
             "the C text of Avtp_GetField/SetField with the little- and the big-endian form of Byteorder.h: same value, same bytes"),
+    "C08": (["O1722.Refine.VssCalc"], ["O1722.Refine.C08_code_calc"],
+            "the C text of Avtp_Vss_CalcVssPathLength (dedicated getter Avtp_Vss_GetAddrMode and file-local Vss_ReadBe16 called by name, "
+            "Avtp_BeToCpu16 of either host) returns Model.vssCalcPathLength — the reported on-wire path size — and leaves memory "
+            "unchanged; the data codec itself (GetVssPath/GetVssData) is outside the C subset and stays with Model + correspondence"),
     "C09": (["O1722.Refine.PropsVss"], ["O1722.Refine.Avtp_Vss_Pad_refines", "O1722.Refine.C09_code"],
             "the C text of Avtp_Vss_Pad (with Avtp_Vss_SetField, Avtp_SetField and the regenerated table) = Model.vssPad, hence "
             "length = ceil(len/4), pad count, exactly the pad bytes zeroed, nothing else changed"),
